@@ -29,6 +29,7 @@ func checkC03(c *Ctx) {
 	c.Rule("C03/R3", "the iteration-count fast path cannot overflow: for each word size the digit-count bound d of the unchecked path satisfies 10^d-1 <= MaxInt of that size; everything else goes to the checked parser")
 	c.Rule("C03/R4", "exponent range check: in the decimal-to-bits conversion every increase of the binary exponent is followed, before the bits are assembled, by the test against the format's exponent limit (otherwise out-of-range text yields a silent Inf/garbage instead of a range error)")
 
+	c.Rule("C03/R7", "mantissas longer than the 800-digit decimal buffer keep their magnitude: the counter of dropped integer digits in decimal.set grows exactly for an unstored digit before the decimal point, and every decimal point position taken from the stored digit count adds it (the one place where the port is deliberately more correct than strconv's slow path)")
 	c.Rule("C03/R6", "saturation contract between the integer parsers: every range-error return of ParseUint carries (1<<bitSize)-1, which ParseInt (which ignores that error) needs in order to re-derive the range error from its cutoff comparison")
 	c.Rule("C03/R5", "port fidelity: each function of the byte-slice port that was carried over from the standard library's strconv unchanged agrees with the strconv function of the same name in $GOROOT, region by region (symbolic path tables: same path conditions, same calls in the same order, same stores, same results and same loop-variable updates after renaming the package and erasing register numbers)")
 	p := mustLoad(c, loadOpts{}, "./benchfmt", "./benchfmt/internal/bytesconv")
@@ -38,6 +39,7 @@ func checkC03(c *Ctx) {
 	c03Exponent(c, p)
 	c03Port(c, "C03/R5")
 	c03Saturate(c, p)
+	c03Dropped(c, p)
 	if c.Tier == "thorough" {
 		if c.override == nil {
 			c03Drift(c, p)
@@ -772,6 +774,12 @@ var c03Carried = []string{
 	"leftShift", "lower", "prefixIsLessThan", "rightShift", "shouldRoundUp", "trim", "underscoreOK",
 }
 
+// c03Counters: per carried function, local counters the port has and strconv has not, each an additive correction that
+// is 0 whenever strconv's own code is right; the sibling comparison is made modulo them and rule R7 checks what they
+// must do. decimal.set: "dropped" counts integer digits beyond the 800-digit buffer (fix f844cc7; strconv keeps the
+// uncorrected dp = nd, which its Eisel-Lemire fast path masks).
+var c03Counters = map[string][]string{"decimal.set": {"dropped"}}
+
 func c03Port(c *Ctx, R string) {
 	p := mustLoad(c, loadOpts{}, "./benchfmt/internal/bytesconv", "strconv")
 	pairs := map[string]sibPair{}
@@ -813,7 +821,8 @@ func c03Port(c *Ctx, R string) {
 			c.Undecided(R, "port:"+name, "", "the function no longer exists in the port or in this toolchain's strconv")
 			continue
 		}
-		diff, n, why := sibCompare(pr.a, pr.b, sibNorm{[]string{modPath + "/benchfmt/internal/bytesconv"}}, sibNorm{[]string{"strconv"}}, 20000)
+		na := sibNorm{pkgPaths: []string{modPath + "/benchfmt/internal/bytesconv"}, zeroVars: c03Counters[name]}
+		diff, n, why := sibCompare(pr.a, pr.b, na, sibNorm{pkgPaths: []string{"strconv"}}, 20000)
 		nrec += n
 		site := p.pos(pr.a.Pos())
 		switch {
@@ -980,4 +989,84 @@ func errorConverterResult(ev ssa.Value) ssa.Value {
 		}
 	}
 	return nil
+}
+
+// c03Dropped: the correction counter of decimal.set (see c03Counters) does what it must: it grows by one exactly for an
+// integer digit (no decimal point seen yet) that does not fit the digit buffer, and every assignment of the decimal
+// point position from the stored digit count adds it.
+func c03Dropped(c *Ctx, p *Prog) {
+	const R = "C03/R7"
+	fn := p.Method("benchfmt/internal/bytesconv", "decimal", "set")
+	if fn == nil {
+		c.Undecided(R, "anchor:decimal.set", "", "not found")
+		return
+	}
+	site := p.pos(fn.Pos())
+	mk := func() *e6Interp {
+		return &e6Interp{fn: fn, PureCall: func(f *types.Func) bool { return true }, OuterName: func(v ssa.Value) string { return sibOuter(v, 0) }, MaxAtoms: 20}
+	}
+	outs, why := regionOutcomes(fn, mk, 20000)
+	if why != "" {
+		c.Undecided(R, "decimal.set:table", site, why)
+		return
+	}
+	nUpd, nDp := 0, 0
+	for _, o := range outs {
+		// buffer-full and decimal-point-seen on this path
+		full, sawdot := "?", "?"
+		for k, v := range o.Assign {
+			s := o.AtomSyms[k]
+			str := s.String()
+			if s.Op == "binop" && s.Tok == token.LSS && strings.Contains(str, ".nd)") && s.Args[1].isConst() {
+				full = fmt.Sprint(!v)
+			}
+			if s.Op == "opaque" && strings.Contains(s.Name, "phi:sawdot") {
+				sawdot = fmt.Sprint(v)
+			}
+		}
+		if o.Term == "exit" && o.Exit != nil {
+			for _, in := range o.Exit.Instrs {
+				phi, ok := in.(*ssa.Phi)
+				if !ok {
+					break
+				}
+				if phi.Comment != "dropped" {
+					continue
+				}
+				for j, pr := range o.Exit.Preds {
+					if pr != o.ExitFrom {
+						continue
+					}
+					next := o.Val(phi.Edges[j]).String()
+					cur := "opaque:phi:dropped"
+					isInit := next == "0" && len(o.Assign) > 0 && !strings.Contains(o.AssignStr(), "phi:i")
+					if isInit || !strings.Contains(o.AssignStr(), "phi:") {
+						continue // entry into the loop
+					}
+					nUpd++
+					wantInc := full == "true" && sawdot == "false"
+					got := "other"
+					switch next {
+					case cur:
+						got = "same"
+					case "(" + cur + " + 1)":
+						got = "inc"
+					}
+					okU := (wantInc && got == "inc") || (!wantInc && got == "same")
+					c.Check(okU, R, fmt.Sprintf("decimal.set:dropped[buffer full=%s point seen=%s]#%d", full, sawdot, nUpd), site, "the counter moves exactly for an unstored integer digit",
+						fmt.Sprintf("with the digit buffer full=%s and a decimal point seen=%s the counter of dropped integer digits becomes %s: integer digits beyond the 800-digit buffer are lost from the magnitude (the value comes out a power of ten too small), or fraction digits are counted as integer digits", full, sawdot, truncate(next, 80)))
+				}
+			}
+		}
+		for k, v := range o.Mem {
+			if !strings.HasSuffix(k, ".dp") || !strings.Contains(v.String(), ".nd)") {
+				continue
+			}
+			nDp++
+			c.Check(v.String() == "(*(&param:b.nd) + opaque:phi:dropped)", R, fmt.Sprintf("decimal.set:dp-from-digit-count#%d", nDp), site, "the decimal point position is the stored digit count plus the dropped integer digits",
+				"the decimal point position is set to "+truncate(v.String(), 100)+", without the integer digits that did not fit the buffer: a mantissa of more than 800 digits is scaled wrongly")
+		}
+	}
+	c.Floor(R, "updates of the dropped-digit counter", nUpd, 4)
+	c.Floor(R, "decimal point positions taken from the digit count", nDp, 2)
 }
